@@ -452,3 +452,22 @@ Proof. exact @ProductTerm2.closed_product_terminates_partial. Qed.
 Print Assumptions C01_topic_inner_steps_bounded.
 Print Assumptions C01_product_between_steps_bounded.
 Print Assumptions C01_product_terminates_closed_partial.
+
+(** ** Round proofs 6: the "ends complete" half of the product's termination, GIVEN quiescence: when no
+    GoChannel topic of a product run has a pending publication any more and every source message has
+    been published, every descendant of every source message is on the final topic.  NOT proved
+    (so there is no [C01_product_terminates_closed]): that a closed product state in which no
+    topic-inner step and no Router step is enabled IS quiescent.  Lifting [SubProgress.sub_progress]
+    needs two coupling invariants the composition does not carry yet ("a publication with a Sender
+    for x has a started thread", "a returned Sender has an Acked copy") and, for a Router step of a
+    middle stage, that a registry label sequence publishing the outputs to the next topic is
+    enabled (a Publish-progress statement about Reg.v in every reachable registry state). *)
+From WM Require Pipeline.ProductDone.
+Theorem C01_product_quiescent_is_complete : forall (M : Type) (hf : nat -> M -> list M) (eqbM : M -> M -> bool),
+  (forall a b : M, eqbM a b = true <-> a = b) ->
+  forall x k sc srcs dflt, 0 < k -> forall pers blk fx cap0 sfx ls,
+  let xs := xrun hf x k sc srcs (xinit (fun _ => cinit pers blk fx cap0 sfx) dflt) ls in
+  ProductDone.xquiescent x k srcs xs ->
+  forall y, In y (expected_sink hf k srcs) -> In y (xsink xs).
+Proof. exact @ProductDone.product_quiescent_complete. Qed.
+Print Assumptions C01_product_quiescent_is_complete.
